@@ -172,7 +172,10 @@ WHOLE_STYLES = ["color:red", "margin:0;padding:1px", "top:1px;", ""]
 def gen_rich_attrs(rng, ctx, childless):
     out = []
     r = rng.random
-    dyn = ctx.dyn and ctx.nsig
+    # (dynamic attribute values only on elements that no re-running closure rebuilds: two branches of a closure that
+    # are elements of one type are rebuilt into each other, attribute values of different erased types are then
+    # built anew without resetting the old one, and what the dropped effect wrote last depends on the poll order)
+    dyn = ctx.dyn and ctx.nsig and not ctx.in_keyed
     sig = lambda: [1, b(str(rng.randrange(ctx.nsig)))]
     # dir owner
     x = r()
@@ -194,7 +197,7 @@ def gen_rich_attrs(rng, ctx, childless):
     x = r()
     if x < 0.3:
         out.append([2, 0, [1, b("1")] if r() < 0.5 else [0]])
-    elif x < 0.45 and dyn and not any(a[0] == 11 for a in out):
+    elif x < 0.45 and dyn and not any(a[0] in (1, 11) for a in out):
         out.append([12, pick_repr(rng, ctx), sig()])
     if r() < 0.15:
         out.append([2, 1, [1, b("1")] if r() < 0.5 else [0]])
@@ -208,8 +211,8 @@ def gen_rich_attrs(rng, ctx, childless):
             out.append([3, 2 * rng.randrange(3), [1, b(rng.choice(STYLE_VALS))]])
         elif x < 0.6 and dyn:
             out.append([13, pick_repr(rng, ctx), sig()])
-        if r() < 0.15:
-            out.append([3, 2 * rng.randrange(3) + 1, [1, b(rng.choice(STYLE_VALS))]])
+        # (no second property name: an in-place rebuild from `style:color` to `style:width` REMOVES a property, which
+        # the native DOM cannot do for a declaration that came with the parsed style attribute)
     if r() < 0.15:
         out.append([4, 0, [1, b("1")] if r() < 0.5 else [0]])
     if r() < 0.2:
@@ -267,7 +270,11 @@ def gen_wide(rng, depth, ctx):
     if r < 0.77:
         # (an EMPTY StaticVec has no node and no marker: as the branch of a closure it can neither be replaced in
         # place nor rebuilt once unmounted — it panics on any tree, C03's subject — so dynamic views have none)
-        return [20, many(1 if ctx.dyn else 0, 3)]
+        if ctx.dyn:
+            # (nor a non-empty one: entered from a branch that cannot insert before itself — `()` — it is never
+            # mounted, has no parent and panics on its next rebuild; C03's subject)
+            return [9, many(0, 3)]
+        return [20, many(0, 3)]
     if r < 0.80:
         return [21, sub(), sub()] if rng.random() < 0.4 else [28, [sub() for _ in range(rng.choice([0, 1, 3]))]]
     if r < 0.84:
@@ -306,7 +313,11 @@ def gen_wide(rng, depth, ctx):
         return [2, t, [], [[14, ctx.ids[0], 2, gen_wide(rng, depth - 1, ctx.child(t).keyed_here())]]]
     if ctx.dyn and ctx.nsig:
         k = rng.choice([1, 1, 2, 3, 4, 5])
-        alts = [] if k == 5 else [sub() for _ in range({1: rng.randint(2, 3), 2: 2, 3: 1, 4: rng.randint(1, 3)}[k])]
+        # (whatever a re-running closure returns is created under that run's owner: an arena signal wrapper made there
+        # is disposed by the next run while effects of the previous view may still be queued — "reactive value …
+        # already disposed", by leptos' rules a misuse — so only the closure / Arc representations inside)
+        alts = [] if k == 5 else [gen_wide(rng, depth - 1, ctx.keyed())
+                                  for _ in range({1: rng.randint(2, 3), 2: 2, 3: 1, 4: rng.randint(1, 3)}[k])]
         return [27, k, rng.choice([0, 0, 2]), rng.randrange(ctx.nsig), alts]
     return gen_leaf(rng, ctx)
 
@@ -522,7 +533,7 @@ def rich_attrs_ok(attrs, childless, ctx):
             return False
         seen.add(slot)
         if k >= 10:
-            if not (ctx.dyn and has and 0 <= rp < 12) or (ctx.in_keyed and rp not in ARC_REPRS):
+            if not (ctx.dyn and has and 0 <= rp < 12) or ctx.in_keyed:
                 return False
             try:
                 if not (0 <= int(bytes(val[1]).decode()) < ctx.nsig):
@@ -535,7 +546,7 @@ def rich_attrs_ok(attrs, childless, ctx):
             return False
         elif k == 2 and rp not in (0, 1):
             return False
-        elif k == 3 and not (0 <= rp < 6 and has and not (set(val[1]) & {59, 34, 38, 60, 62})):
+        elif k == 3 and not (rp in (0, 2, 4) and has and not (set(val[1]) & {59, 34, 38, 60, 62})):
             return False
         elif k == 5 and not (0 <= rp < 4 and (has or rp == 3) and not (has and set(val[1]) & {34, 38, 60, 62})):
             return False
@@ -549,7 +560,7 @@ def rich_attrs_ok(attrs, childless, ctx):
             return False
     if "style" in seen and ("width" in seen or "color" in seen):
         return False
-    if any(a[0] == 11 for a in attrs) and any(a[0] == 12 for a in attrs):
+    if any(a[0] in (1, 11) for a in attrs) and any(a[0] == 12 for a in attrs):
         return False
     return True
 
@@ -605,7 +616,7 @@ def _wide_ok(v, ctx):
     if op == 11:
         return len(v) == 2 and all(_wide_ok(k, ctx.keyed()) for k in v[1])
     if op in (9, 20):
-        return len(v) == 2 and all(sub(k) for k in v[1]) and not (op == 20 and ctx.dyn and not v[1])
+        return len(v) == 2 and all(sub(k) for k in v[1]) and not (op == 20 and ctx.dyn)
     if op == 28:
         return len(v) == 2 and len(v[1]) in (0, 1, 3) and all(sub(k) for k in v[1])
     if op in (5, 7, 8, 10, 23):
@@ -643,7 +654,7 @@ def _wide_ok(v, ctx):
         if v[1] not in (1, 2, 3, 4, 5) or v[2] not in (0, 2):
             return False
         need = {1: (1, 9), 2: (2, 2), 3: (1, 1), 4: (1, 9), 5: (0, 0)}[v[1]]
-        return need[0] <= len(v[4]) <= need[1] and all(sub(k) for k in v[4])
+        return need[0] <= len(v[4]) <= need[1] and all(_wide_ok(k, ctx.keyed()) for k in v[4])
     if op == 12:
         from . import c05
         return (not ctx.svg) and len(v) == 2 and c05.inert_shape_ok(v[1], top=True) and c05.inert_content_ok(v[1], ctx.in_p)
